@@ -1051,4 +1051,41 @@ Section Backup.
 
   Definition received_by (b : nat) (log : list (D * nat)) : list D :=
     map fst (filter (fun x => Nat.eqb (snd x) b) log).
+  (* The same machine with the buffer kept newest-first together with its length: what the cases of
+     long runs evaluate (appending at the end of a list 25 000 times is quadratic).  It is proved
+     equal to [cb_run] (Proofs/Normalizer.v: cb_run_fast_eq). *)
+  Record cbf_state : Type := { cbf_rev : list D; cbf_len : N; cbf_push : bool }.
+  Definition cbf0 : cbf_state := {| cbf_rev := []; cbf_len := 0%N; cbf_push := false |}.
+
+  Definition dq_append_fast (maxlen : N) (rb : list D) (len : N) (d : D) : list D * N :=
+    if N.eqb maxlen 0 then ([], 0%N)
+    else if N.ltb len maxlen then (d :: rb, N.succ len) else (d :: removelast rb, len).
+
+  Definition cbf_call (maxlen : N) (nb : nat) (c : cbf_state) (d : D) (raised : bool)
+    : cbf_state * list (D * nat) :=
+    let '(rb, len) := dq_append_fast maxlen (cbf_rev c) (cbf_len c) d in
+    if cbf_push c || raised then ({| cbf_rev := []; cbf_len := 0%N; cbf_push := true |},
+                                  flat_map (fun x => map (fun b => (x, b)) (seq 0 nb)) (rev rb))
+    else ({| cbf_rev := rb; cbf_len := len; cbf_push := false |}, []).
+
+  Fixpoint cbf_run (maxlen : N) (nb : nat) (c : cbf_state) (docs : list D) (raises : list bool)
+    : cbf_state * list (D * nat) :=
+    match docs with
+    | [] => (c, [])
+    | d :: r =>
+        let '(c1, l1) := cbf_call maxlen nb c d (hd false raises) in
+        let '(c2, l2) := cbf_run maxlen nb c1 r (tl raises) in
+        (c2, l1 ++ l2)
+    end.
 End Backup.
+
+(* document ids for the generated long runs: a, a+1, ... as binary numbers *)
+Fixpoint nseq (a : N) (n : nat) : list N :=
+  match n with O => [] | S n' => a :: nseq (N.succ a) n' end.
+Definition lN_beq : list N -> list N -> bool :=
+  fix go (a b : list N) : bool :=
+    match a, b with
+    | [], [] => true
+    | x :: a', y :: b' => N.eqb x y && go a' b'
+    | _, _ => false
+    end.
